@@ -127,7 +127,14 @@ def do_update(w, seam, u, op_index, top='Manifest'):
             if u.get('incremental'):
                 argv += ['-i']
             argv += [os.path.join(root, path) if path else root]
-            c = run_cli(argv, tz=u.get('tz'))
+            import gemato.cli
+            from .seam import make_datetime_shim
+            old_dt = gemato.cli.datetime
+            gemato.cli.datetime = make_datetime_shim(seam.clock)    # TIMESTAMP must not read the real clock
+            try:
+                c = run_cli(argv, tz=u.get('tz'))
+            finally:
+                gemato.cli.datetime = old_dt
             r = cli_as_call(c)
             info['cli'] = c
     return r, info
